@@ -173,6 +173,18 @@ def run(ctx, res):
                b''.join(b'function f%d() ' % k for k in range(70)) + b'return 0 ' + b'end ' * 70 + b'\n',
                b''.join(b'a%d=%d ' % (k, k) for k in range(1500)) + b'\n', b'u=1' + b'+1' * 400 + b'\n', b'r=f' + b'(g' * 60 + b'()' + b')' * 60 + b'\n',
                b'while a do ' * 40 + b'repeat ' * 40 + b'until b ' * 40 + b'end ' * 40 + b'\n', b'if (a) ' * 30 + b'x=1\n']
+    # small valid programs around comments glued to a token and empty blocks: each must be accepted and consumed to its last token
+    glued = [b'--[[c]]repeat until x\ny=1\n', b'--[[c]]do end\ny=1\n', b'do --[[c]]::l:: end\ny=1\n', b'while a do --[[c]]do end y=1 end\nz=2\n',
+             b'--[[a]]--[[b]]repeat until x\nq=1\n', b'if a then --[[c]]do end else --[[d]]repeat until b end\nw=1\n', b'--[[c]]::top:: goto top\n',
+             b'function f() --[[c]]do end return 1 end\nv=f()\n', b'repeat --[[c]]::l:: until x\nu=1\n', b'--[==[c]==]do end--[[e]]y=1\n',
+             b'for i=1,2 do --[[c]]do end end\nt=1\n', b'do--[[c]]end\ns=1\n', b'--[[c]]while x do end r=1\n', b'if (a) --[[c]]do end\np=1\n']
+    for a in glued:
+        check_program(res, a, None, batch, 'glued-comment')
+        out_, toks_, root_ = impl_parse(a)
+        nsig_ = [i for i, t in enumerate(toks_ or []) if type(t).__name__ not in ('TokSpace', 'TokNewline', 'TokComment')]
+        if not out_.startswith('ok') or (nsig_ and root_.end_pos < nsig_[-1] + 1):
+            res.fail('C08:glued-comment:' + hx(a)[:40], 'the valid program %r is %s' % (
+                a, 'rejected (%s)' % out_[:60] if not out_.startswith('ok') else 'not consumed to its end'), {'source': hx(a)})
     for a in anchors:
         check_program(res, a, None, batch, 'anchor')
         if len(a) > 200:
